@@ -32,13 +32,15 @@ func genSetup(seed uint64, tier, variant string) any {
 	if !o.DisableCache {
 		o.Tracking = pick(r, []string(nil), []string{"OPTOUT"}, []string{"BCAST"}, []string{"BCAST", "PREFIX", "a", "PREFIX", "b"}, []string{"OPTIN", "NOLOOP"})
 	}
-	switch r.IntN(4) {
+	switch r.IntN(6) {
 	case 1:
 		o.Password = "secret"
 	case 2:
 		o.Username, o.Password = "alice", "pw"
 	case 3:
 		o.Username, o.Password, o.DynAuth = "bob", "pw2", true
+	case 4:
+		o.Password, o.DynAuth = "dynsecret", true // credentials function supplying a password for the default user
 	}
 	o.ClientName = pick(r, "", "", "app-1")
 	o.SelectDB = pick(r, 0, 0, 3)
